@@ -194,7 +194,7 @@ impl DynProp for Recorded {
 pub struct VariantCase {
     pub pick: u32,
     pub rights_mask: u8,
-    /// 0 keep, 1 drop the ep target, 2 flip the side to move (if nobody is in check)
+    /// 0 keep, 1 drop the ep target, 2 flip the side to move (if nobody is in check), 3 other move counters
     pub other: u8,
 }
 
@@ -206,7 +206,7 @@ impl Prop for Variants {
         "book_right_stripped_variants"
     }
     fn strategy(&self, _: &Ctx) -> BoxedStrategy<VariantCase> {
-        (any::<u32>(), 0u8..16, prop_oneof![4 => Just(0u8), 1 => Just(1u8), 1 => Just(2u8)])
+        (any::<u32>(), 0u8..16, prop_oneof![4 => Just(0u8), 1 => Just(1u8), 1 => Just(2u8), 2 => Just(3u8)])
             .prop_map(|(pick, rights_mask, other)| VariantCase { pick, rights_mask, other })
             .boxed()
     }
@@ -218,6 +218,11 @@ impl Prop for Variants {
             p.cas[i] = base.cas[i] && (case.rights_mask >> i) & 1 == 1;
         }
         match case.other {
+            3 => {
+                // the same position with other move counters: the book must not care
+                p.half = (case.pick % 97) as u64;
+                p.full = 1 + (case.pick as u64 / 97) % 150;
+            }
             1 => p.ep = None,
             2 => {
                 if p.ep.is_none() && !p.in_check(p.stm) {
@@ -372,7 +377,7 @@ pub fn plan(ctx: &Ctx) -> Plan {
                positions identified by placement, side, castling rights and en-passant capture availability. (1) \
                exhaustively for every such position: OpeningBook::lookup as a set of attribute tuples equals the recorded \
                set and every offered move is legal. (2) generated variants of recorded positions (strictly smaller \
-               castling-right subsets, en-passant target dropped, side flipped): the book offers nothing or only legal \
+               castling-right subsets, en-passant target dropped, side flipped, other halfmove/fullmove counters): the book offers nothing or only legal \
                moves, and exactly the recorded set if the variant is itself recorded. (3) generated real move histories \
                from the start position mixing book moves with tempo-losing rook/knight/king shuffles and arbitrary moves \
                (<= 25 plies; kinds: follow the book, shuffle a rook/knight/king, undo the side's previous move, any legal move), looked up on the state reached by weechess's own successors: nothing or only legal moves \
